@@ -454,6 +454,175 @@ func readerRetry(c *Ctx) (bool, error) {
 	return ctxCase, nil
 }
 
+// ownerArms inspects the owner loop's select in transport.handle:
+//   - does the `case req := <-t.requests` arm call WriteFcall itself (old
+//     shape), or only queue the frame (`pending = append(pending, …)`)?
+//   - the `case w := <-failed` arm: `if outstanding[w.fcall.Tag] == w.req {
+//     delete(outstanding, w.fcall.Tag) }; w.req.err <- w.err`
+//   - the `case out <- next` arm pops the head of pending
+//   - a goroutine of handle receives from `writes`, calls WriteFcall and sends
+//     the frame back on `failed` only when the write failed.
+func ownerArms(c *Ctx) (inline, guarded bool, err error) {
+	fd := c.FuncDecl("transport", "handle")
+	if fd == nil {
+		return false, false, fmt.Errorf("transport.handle not found")
+	}
+	callsWrite := func(n ast.Node) bool {
+		found := false
+		ast.Inspect(n, func(x ast.Node) bool {
+			if call, ok := x.(*ast.CallExpr); ok {
+				if s, ok := call.Fun.(*ast.SelectorExpr); ok && s.Sel.Name == "WriteFcall" {
+					found = true
+				}
+			}
+			return true
+		})
+		return found
+	}
+	var reqArm, failedArm, handArm *ast.CommClause
+	ast.Inspect(fd.Body, func(x ast.Node) bool {
+		cc, ok := x.(*ast.CommClause)
+		if !ok || cc.Comm == nil {
+			return true
+		}
+		switch st := cc.Comm.(type) {
+		case *ast.AssignStmt:
+			if len(st.Rhs) == 1 {
+				if u, ok := st.Rhs[0].(*ast.UnaryExpr); ok && u.Op == token.ARROW {
+					if isSelector(u.X, "t", "requests") {
+						reqArm = cc
+					}
+					if id, ok := u.X.(*ast.Ident); ok && id.Name == "failed" {
+						failedArm = cc
+					}
+				}
+			}
+		case *ast.SendStmt:
+			if id, ok := st.Chan.(*ast.Ident); ok && id.Name == "out" {
+				handArm = cc
+			}
+		}
+		return true
+	})
+	if reqArm == nil {
+		return false, false, fmt.Errorf("transport.handle: no `case req := <-t.requests` arm")
+	}
+	inline = callsWrite(&ast.BlockStmt{List: reqArm.Body})
+	if inline {
+		if failedArm != nil || handArm != nil {
+			return false, false, fmt.Errorf("transport.handle: the requests arm writes the frame itself AND a failed/hand-over arm exists (shape not modelled)")
+		}
+		return true, false, nil
+	}
+	if failedArm == nil || handArm == nil {
+		return false, false, fmt.Errorf("transport.handle: the requests arm does not write the frame, but there is no `case out <- next` / `case w := <-failed` arm")
+	}
+	// requests arm: must append to pending
+	appends := false
+	ast.Inspect(&ast.BlockStmt{List: reqArm.Body}, func(x ast.Node) bool {
+		if as, ok := x.(*ast.AssignStmt); ok && len(as.Lhs) == 1 && len(as.Rhs) == 1 {
+			if id, ok := as.Lhs[0].(*ast.Ident); ok && id.Name == "pending" {
+				if call, ok := as.Rhs[0].(*ast.CallExpr); ok {
+					if f, ok := call.Fun.(*ast.Ident); ok && f.Name == "append" && len(call.Args) == 2 {
+						if a0, ok := call.Args[0].(*ast.Ident); ok && a0.Name == "pending" {
+							appends = true
+						}
+					}
+				}
+			}
+		}
+		return true
+	})
+	if !appends {
+		return false, false, fmt.Errorf("transport.handle: the requests arm neither writes the frame nor appends it to `pending`")
+	}
+	// hand-over arm: pending = pending[1:]
+	pops := false
+	for _, st := range handArm.Body {
+		if as, ok := st.(*ast.AssignStmt); ok && len(as.Lhs) == 1 && len(as.Rhs) == 1 {
+			if id, ok := as.Lhs[0].(*ast.Ident); ok && id.Name == "pending" {
+				if sl, ok := as.Rhs[0].(*ast.SliceExpr); ok && sl.High == nil {
+					if lo, ok := sl.Low.(*ast.BasicLit); ok && lo.Value == "1" {
+						pops = true
+					}
+				}
+			}
+		}
+	}
+	if !pops {
+		return false, false, fmt.Errorf("transport.handle: the `case out <- next` arm does not pop the head of pending")
+	}
+	// failed arm
+	if len(failedArm.Body) != 2 {
+		return false, false, fmt.Errorf("transport.handle: the failed arm is not `[if guard] delete…; w.req.err <- w.err`")
+	}
+	snd, ok := failedArm.Body[1].(*ast.SendStmt)
+	if !ok || !isSelector(snd.Chan, "w", "req", "err") || !isSelector(snd.Value, "w", "err") {
+		return false, false, fmt.Errorf("transport.handle: the failed arm does not end in `w.req.err <- w.err`")
+	}
+	isDelete := func(st ast.Stmt) bool {
+		if es, ok := st.(*ast.ExprStmt); ok {
+			if call, ok := es.X.(*ast.CallExpr); ok {
+				if f, ok := call.Fun.(*ast.Ident); ok && f.Name == "delete" && len(call.Args) == 2 && isSelector(call.Args[1], "w", "fcall", "Tag") {
+					if m, ok := call.Args[0].(*ast.Ident); ok && m.Name == "outstanding" {
+						return true
+					}
+				}
+			}
+		}
+		return false
+	}
+	switch first := failedArm.Body[0].(type) {
+	case *ast.IfStmt:
+		be, ok := first.Cond.(*ast.BinaryExpr)
+		if !ok || be.Op != token.EQL || !isSelector(be.Y, "w", "req") || first.Else != nil {
+			return false, false, fmt.Errorf("transport.handle: the failed arm's guard is not `outstanding[w.fcall.Tag] == w.req`")
+		}
+		ix, ok := be.X.(*ast.IndexExpr)
+		if !ok || !isSelector(ix.Index, "w", "fcall", "Tag") {
+			return false, false, fmt.Errorf("transport.handle: the failed arm's guard does not index by w.fcall.Tag")
+		}
+		if len(first.Body.List) != 1 || !isDelete(first.Body.List[0]) {
+			return false, false, fmt.Errorf("transport.handle: the failed arm's guard does not delete(outstanding, w.fcall.Tag)")
+		}
+		guarded = true
+	default:
+		if !isDelete(first) {
+			return false, false, fmt.Errorf("transport.handle: the failed arm does not release the tag")
+		}
+	}
+	// the writer goroutine
+	writer := false
+	ast.Inspect(fd.Body, func(x ast.Node) bool {
+		gs, ok := x.(*ast.GoStmt)
+		if !ok {
+			return true
+		}
+		recvWrites, sendsFailed := false, false
+		ast.Inspect(gs.Call, func(y ast.Node) bool {
+			switch z := y.(type) {
+			case *ast.UnaryExpr:
+				if id, ok := z.X.(*ast.Ident); ok && z.Op == token.ARROW && id.Name == "writes" {
+					recvWrites = true
+				}
+			case *ast.SendStmt:
+				if id, ok := z.Chan.(*ast.Ident); ok && id.Name == "failed" {
+					sendsFailed = true
+				}
+			}
+			return true
+		})
+		if recvWrites && sendsFailed && callsWrite(gs.Call) {
+			writer = true
+		}
+		return true
+	})
+	if !writer {
+		return false, false, fmt.Errorf("transport.handle: no goroutine receives from `writes`, calls WriteFcall and reports on `failed`")
+	}
+	return false, guarded, nil
+}
+
 // sendSelects checks that transport.send consists of two select statements,
 // each with a `<-t.closed` and a `<-ctx.Done()` case, the first sending on
 // t.requests, the second receiving from req.err and req.response; and returns
@@ -689,6 +858,10 @@ func genReplyTypes(c *Ctx) (string, error) {
 	if err != nil {
 		return "", err
 	}
+	inline, guarded, err := ownerArms(c)
+	if err != nil {
+		return "", err
+	}
 	var b strings.Builder
 	b.WriteString("From Coq Require Import List NArith Bool.\nImport ListNotations.\nOpen Scope N_scope.\n\n")
 	b.WriteString("(* csession.go: (method name, request FcallType built, reply FcallType asserted) *)\n")
@@ -706,5 +879,6 @@ func genReplyTypes(c *Ctx) (string, error) {
 	fmt.Fprintf(&b, "(* newFcallRequest: buffer capacities of the response and err channels *)\nDefinition response_chan_cap : N := %d.\nDefinition err_chan_cap : N := %d.\n\n", rc, ec)
 	fmt.Fprintf(&b, "(* transport.handle: does the branch for a reply whose tag is not outstanding panic? *)\nDefinition unknown_tag_panics : bool := %v.\n", panics)
 	fmt.Fprintf(&b, "\n(* transport.handle, reader goroutine: does the retry-on-timeout branch stop once t.ctx is done? *)\nDefinition reader_retry_stops_when_done : bool := %v.\n", retryStops)
+	fmt.Fprintf(&b, "\n(* transport.handle: does the `case req := <-t.requests` arm call WriteFcall itself (true), or queue the\n   frame for the writer goroutine (false)?  In the latter case: does the `case w := <-failed` arm delete the\n   tag only if it still belongs to the failed request? *)\nDefinition owner_writes_inline : bool := %v.\nDefinition failed_arm_guarded : bool := %v.\n", inline, guarded)
 	return b.String(), nil
 }
